@@ -33,7 +33,7 @@ func (g *Gen) faultScript(p *Plan, mix FaultMix, horizon int) {
 		kinds = append(kinds, "retryable", "notserving", "fatal", "logclosed", "retryable")
 	}
 	if mix.Conn {
-		kinds = append(kinds, "reset", "connop", "crash", "silent", "reset", "abort", "stall", "dialdelay")
+		kinds = append(kinds, "reset", "connop", "crash", "silent", "reset", "abort", "stall", "dialdelay", "slow")
 	}
 	if mix.ZK {
 		kinds = append(kinds, "zkfail")
@@ -109,6 +109,15 @@ func (g *Gen) faultScript(p *Plan, mix FaultMix, horizon int) {
 			f.Act, f.Count = "stall", []int{0, 16, 300, 5000, 100000}[g.R.Intn(5)]
 			if g.R.Chance(0.7) {
 				p.Faults = append(p.Faults, &Fault{On: "ms", N: g.R.Range(1, 3) * p.Client.ReadTimeoutMS, Act: "unstall", Server: f.Server})
+			}
+		case "slow":
+			// a regionserver that takes its time over every request
+			f.Act, f.Dur = "slow", []int{1, 10, 40, 400, 2000}[g.R.Intn(5)]
+			if g.R.Chance(0.5) {
+				f.On, f.N = "step", 1
+			}
+			if g.R.Chance(0.5) {
+				p.Faults = append(p.Faults, &Fault{On: "ms", N: g.R.Range(100, 60000), Act: "unslow", Server: f.Server})
 			}
 		case "dialdelay":
 			f.Act, f.Dur = "dialdelay", []int{1, 20, 500, 5000, 40000}[g.R.Intn(5)]
